@@ -88,6 +88,11 @@ class Engine:
             return self.pick(["0", 1.5, 10 ** 30, [0]])
         return self.pick([None, 0] + list(more))
 
+    def ident_prop(self):
+        """properties= of a create call carrying an identifier: legal, or (as an invalid argument under the EDIF policy) ill-formed"""
+        bad = self.policy == "EDIF" and self.invalid() and self.r.random() < 0.5
+        return {"EDIF.identifier": self.pick(BAD_IDS if bad else IDS)}
+
     def all_outer(self):
         return [op for i in self.u.insts for op in i.pins]
 
@@ -168,7 +173,7 @@ class Engine:
     def op_create_library(self):
         n = self.pick(self.u.netlists)
         nm = self.name() if self.r.random() < 0.8 else None
-        props = {"EDIF.identifier": self.pick(IDS)} if self.r.random() < 0.2 else None
+        props = self.ident_prop() if self.r.random() < 0.2 else None
         return Op("Netlist.create_library", lambda: n.create_library(nm, props), "create_library(%r,%r)" % (nm, props), "random", n, (nm, props))
 
     def op_add_library(self):
@@ -316,7 +321,7 @@ class Engine:
         if l is None:
             return None
         nm = self.name() if self.r.random() < 0.8 else None
-        props = {"EDIF.identifier": self.pick(IDS)} if self.r.random() < 0.2 else None
+        props = self.ident_prop() if self.r.random() < 0.2 else None
         return Op("Library.create_definition", lambda: l.create_definition(nm, props), "create_definition(%r,%r)" % (nm, props), "random", l, (nm, props))
 
     def op_add_definition(self):
@@ -373,7 +378,7 @@ class Engine:
         if self.r.random() < 0.2:
             kw["is_downto"] = self.r.choice([True, False])
         if self.r.random() < 0.2:
-            kw["properties"] = self.r.choice([{"k": 1}, {"EDIF.identifier": self.pick(IDS)}, {"EDIF.identifier": self.pick(IDS)}])
+            kw["properties"] = self.r.choice([{"k": 1}, self.ident_prop(), self.ident_prop()])
         return Op("Definition.create_port", lambda: d.create_port(nm, pins=pins, **kw), "create_port(%r,pins=%r,%s)" % (nm, pins, sorted(kw)), "random", d, (nm, kw.get("properties")))
 
     def op_add_port(self):
@@ -496,7 +501,7 @@ class Engine:
         if self.r.random() < 0.1:
             kw["is_scalar"] = self.r.choice([True, False])
         if self.r.random() < 0.2:
-            kw["properties"] = {"EDIF.identifier": self.pick(IDS)}      # an element that arrives with BOTH naming keys
+            kw["properties"] = self.ident_prop()      # an element that arrives with BOTH naming keys
         return Op("Definition.create_cable", lambda: d.create_cable(nm, wires=wires, **kw), "create_cable(%r,wires=%r,%s)" % (nm, wires, sorted(kw)), "random", d, (nm, kw.get("properties")))
 
     def op_add_cable(self):
@@ -596,7 +601,10 @@ class Engine:
         kw = {}
         if self.r.random() < 0.1:
             kw["properties"] = {"k": [1, {"z": 2}]}
-        return Op("Definition.create_child", lambda: d.create_child(nm, reference=ref, **kw), "create_child(%r,ref=%s)" % (nm, ref is not None), "random", d, (nm, ref))
+        elif self.r.random() < 0.2:
+            kw["properties"] = self.ident_prop()
+        return Op("Definition.create_child", lambda: d.create_child(nm, reference=ref, **kw), "create_child(%r,ref=%s%s)" % (nm, ref is not None, ",properties" if "properties" in kw else ""), "random", d,
+                  (nm, kw["properties"], ref) if "properties" in kw else (nm, ref))
 
     def op_add_child(self):
         d = self.pick(self.u.defs)
@@ -763,7 +771,7 @@ class Engine:
         ps = [proxy(p) if isinstance(p, BaseOuterPin) and self.r.random() < 0.4 else p for p in ps]
         st = "valid"
         if self.invalid():
-            k = self.r.randrange(4)
+            k = self.r.randrange(6)         # (3-5: a real pin that sits on ANOTHER wire)
             bad = None
             if k == 0 and self.stale_proxies:
                 i, ip = self.pick(self.stale_proxies)
@@ -774,8 +782,13 @@ class Engine:
                 bad, st = sdn.OuterPin(), "mixed-empty-outer"
             if bad is None:
                 c = [p for p in self.u.ipins + self.all_outer() if p.wire is not w]
+                elsewhere = [p for p in c if p.wire is not None]      # connected, but to another wire
+                if elsewhere and self.r.random() < 0.7:
+                    c = elsewhere
                 if c:
                     bad, st = self.pick(c), "mixed-invalid"
+                    if isinstance(bad, BaseOuterPin) and self.r.random() < 0.3:
+                        bad = proxy(bad)
             if bad is not None:
                 ps.insert(self.r.randint(0, len(ps)), bad)       # anywhere among the valid ones
         arg = set(ps) if self.r.random() < 0.3 else ps
